@@ -83,7 +83,7 @@ def chunks(ctx, files, size):
 def model_check(ctx):
     w = 4
     cfgs = ["Updates_mc_quick.cfg", "Updates_mc_origin_q.cfg"] if ctx.quick() else \
-        ["Updates_mc_quick.cfg", "Updates_mc_origin_q.cfg", "Updates_mc_origin.cfg", "Updates_mc_thorough_way.cfg", "Updates_mc_thorough_way3.cfg", "Updates_mc_thorough_unann.cfg",
+        ["Updates_mc_quick.cfg", "Updates_mc_origin_q.cfg", "Updates_mc_origin.cfg", "Updates_mc_zero.cfg", "Updates_mc_thorough_way.cfg", "Updates_mc_thorough_way3.cfg", "Updates_mc_thorough_unann.cfg",
          "Updates_mc_thorough_rel.cfg", "Updates_mc_pinned.cfg"]
     extra = ["-coverage", "1"] if not ctx.quick() else []
     for c in cfgs:
